@@ -28,7 +28,7 @@ RULE = (
 ASSUMPTIONS = ["model: ids 1..0xFFFF repeating per destination; reboot flag set exactly on datagrams before the first wrap",
                "the default (multicast) destination is always addressed with remote=None, as the library itself does"]
 FLOORS = {"quick": {"datagrams_decoded": 400000, "wraps_observed": 8, "empty_sends": 1000, "full_cycle_walks": 1,
-                    "notification_wraps": 6, "notification_wraps_inside_a_datagram": 4, "announcer_path_datagrams": 1000, "destinations_checked": 12}}
+                    "notification_wraps": 6, "notification_wraps_inside_a_datagram": 4, "announcer_path_datagrams": 1000, "destinations_checked": 12, "churn_notifications_checked": 3000}}
 
 
 class IdModel:
@@ -248,6 +248,76 @@ def walk_notifications(ctx, spec, rng):
         ctx.violation("unexpected-exception-during-run", b, dict(spec=spec))
 
 
+def walk_notification_churn(ctx, spec, rng):
+    """subscribers come and go while notifications are in flight (address resolution takes virtual time): every id a
+    destination ever sees must continue the sequence - an id taken for a datagram that is then not sent would show as a gap"""
+    import ipaddress
+    import someip.header as H
+    import someip.service as SV
+
+    for sc in range(spec["scenarios"]):
+        h = Harness(rng, max_iterations=400000)
+        loop = h.loop
+        loop.gai_latency = rng.choice((2.0 ** -6, 2.0 ** -5))
+        lat = loop.gai_latency
+
+        class Svc(SV.SimpleService):
+            service_id = 0x2323
+            version_major = 1
+            version_minor = 0
+
+        res = {}
+
+        def setup():
+            svc = Svc(instance_id=1)
+            svc.transport = net.RecTransport(loop, ("10.9.4.1", 30509))
+            eg = SV.SimpleEventgroup(svc, id=1, interval=rng.choice((None, 0.25)))
+            svc.register_eventgroup(eg)
+            for i in range(3):
+                eg.values[i + 1] = bytes([i])
+            res.update(svc=svc, eg=eg)
+
+        eps = [H.IPv4EndpointOption(address=ipaddress.IPv4Address("10.9.4.9"), l4proto=H.L4Protocols.UDP, port=4100 + i) for i in range(2)]
+        eps.append(H.IPv6EndpointOption(address=ipaddress.IPv6Address("2001:db8::49"), l4proto=H.L4Protocols.UDP, port=4100))
+        h.at(0.0, setup)
+        subscribed = set()
+        t = 0.125
+        for _ in range(spec["actions"]):
+            t += rng.choice((0.0, lat / 2, lat / 2, lat, 2 * lat, 0.125))
+            i = rng.randrange(len(eps))
+            r = rng.random()
+            if r < 0.35:
+                if i in subscribed:
+                    subscribed.discard(i)
+                    h.at(t, lambda i=i: res["eg"].unsubscribe(eps[i]))
+                else:
+                    subscribed.add(i)
+                    h.at(t, lambda i=i: res["eg"].subscribe(eps[i]))
+            else:
+                evs = rng.sample([1, 2, 3], rng.randrange(1, 4))
+                h.at(t, lambda evs=evs: res["eg"].notify_once(evs))
+        h.run(t + 1.0)
+        nexts = {}
+        for tt, it, data, dst in res["svc"].transport.sent:
+            msgs, bad = refwire.split_datagram(data)
+            ctx.count("datagrams_decoded")
+            for m in msgs:
+                exp = nexts.get(dst, 1)
+                if m["sess"] != exp:
+                    ctx.violation("session-id-zero-sent" if m["sess"] == 0 else "session-id-gap-or-repeat",
+                                  dict(path="notification with subscriber churn", dst=dst, expected=exp, got=m["sess"], at=tt),
+                                  dict(spec=spec))
+                    nexts[dst] = (m["sess"] % 0xFFFF) + 1
+                else:
+                    nexts[dst] = 1 if exp >= 0xFFFF else exp + 1
+                ctx.count("churn_notifications_checked")
+        ctx.count("churn_scenarios")
+        bad = [p for p in h.problems() if p[0] != "logged_exception"]
+        h.close()
+        for b in bad:
+            ctx.violation("unexpected-exception-during-run", b, dict(spec=spec))
+
+
 def thread_stress(ctx, spec, rng):
     """the allocator's own lock is the only legal multi-threaded entry: 4 threads, 2
     destinations, GIL hand-off forced between the statements of assign_outgoing"""
@@ -326,6 +396,7 @@ def shards(tier, seed):
     out.append(dict(shard=33, seed=seed, mode="notify", nsub=2, events=2, rounds=65535 // 2 + 60))
     out.append(dict(shard=34, seed=seed, mode="notify", nsub=2, events=4, rounds=65535 // 4 + 60))
     out.append(dict(shard=35, seed=seed, mode="notify", nsub=3, events=3, rounds=65535 // 2 + 200, mixed=True))
+    out.append(dict(shard=36, seed=seed, mode="churn", scenarios=40 if tier == "quick" else 1500, actions=120))
     if tier == "thorough":
         out.append(dict(shard=22, seed=seed, mode="announcer", collect=0, n=70000))
         out.append(dict(shard=31, seed=seed, mode="notify", nsub=4, events=1, rounds=65535 + 60))
@@ -354,6 +425,10 @@ def run(spec, ctx):
         ctx.case(("notify", spec["nsub"], spec["events"], spec["rounds"]), True,
                  sample=dict(path="SimpleEventgroup.notify_once", subscribers=spec["nsub"], events=spec["events"],
                              rounds=spec["rounds"]))
+    elif mode == "churn":
+        walk_notification_churn(ctx, spec, rng)
+        ctx.case(("churn", spec["scenarios"]), True, sample=dict(path="notifications with subscribers coming and going while address "
+                                                                 "resolution is in flight", scenarios=spec["scenarios"]))
     elif mode == "threads":
         thread_stress(ctx, spec, rng)
         ctx.case(("threads", spec["per_thread"]), True,
